@@ -19,6 +19,7 @@ EXTENDS TrBase
 
 VARIABLES own, dying, foreign, dups
 vars == <<l, viols, own, dying, foreign, dups>>
+\* (eventfds are added to their poller before the poller's creation is logged: see p.ctl.AddRead below)
 
 Init == /\ l = 1 /\ viols = <<>> /\ own = Empty /\ dying = Empty /\ foreign = {} /\ dups = {}
         /\ TLCSet(1, 1) /\ TLCSet(2, <<>>)
@@ -44,7 +45,7 @@ Close(fd, o, what) ==
               Check(fd \in DOMAIN own /\ own[fd] = o /\ fd \notin foreign /\ fd \notin dups, "CloseOwnedOnce",
                     <<what, fd, o, Get(own, fd, "none")>>, viols))
 
-Next ==
+Step1 ==
     /\ More
     /\ LET e == Ev IN
        CASE e.ev = "Reset" -> Step(Empty, Empty, foreign, {}, viols)
@@ -66,6 +67,15 @@ Next ==
          [] e.ev = "Sys" /\ e.site \in UseSites /\ e.h # 0 ->
               Same(Check(e.fd \in DOMAIN own /\ own[e.fd] = Owner(e.h), "UseOnlyOwnedFd",
                          <<e.site, e.h, e.fd, Get(own, e.fd, "none"), Get(dying, e.fd, "none")>>, viols))
+         \* ---- poll registrations: only for descriptors the framework owns.  The one exception is the eventfd,
+         \* which OpenPoller adds before the creation of the poller is logged: it must be claimed by a
+         \* p.open event within the next few events (other goroutines' events may come in between)
+         [] e.ev = "Sys" /\ e.site = "p.ctl.AddRead" /\ e.fd \notin DOMAIN own ->
+              Same(Check(\E j \in (l + 1)..(IF l + 12 < Len(Trace) THEN l + 12 ELSE Len(Trace)) :
+                             Trace[j].ev = "Sys" /\ Trace[j].site = "p.open" /\ Trace[j].n = e.fd,
+                         "PollOnlyOwnedFd", <<e.site, e.fd>>, viols))
+         [] e.ev = "Sys" /\ e.site \in {"p.ctl.AddRead", "p.ctl.AddWrite", "p.ctl.AddReadWrite", "p.ctl.ModRead", "p.ctl.ModReadWrite", "p.ctl.Delete"} ->
+              Same(Check(e.fd \in DOMAIN own, "PollOnlyOwnedFd", <<e.site, e.fd, Get(dying, e.fd, "none")>>, viols))
          \* ---- close: exactly once, by the owner
          [] e.ev = "Sys" /\ e.site = "el.close" -> Close(e.fd, Owner(e.h), "el.close")
          [] e.ev = "Sys" /\ e.site \in {"el.regclose", "acc.close"} -> Close(e.fd, <<"accepted", e.fd>>, e.site)
@@ -97,4 +107,6 @@ Next ==
          [] e.ev = "Grace" -> Same(Check(DOMAIN own = {} /\ DOMAIN dying = {}, "NoLeakAtStop", <<DOMAIN own, DOMAIN dying>>, viols))
          [] e.ev = "ProcFd" -> Same(Check(e.leaked = 0 /\ e.sockfiles = 0, "NoLeakAtStop", <<"/proc/self/fd", e.leaked, e.what, e.sockfiles>>, viols))
          [] OTHER -> Same(viols)
+
+Next == Step1 \/ FinishWith(<<own, dying, foreign, dups>>)
 =============================================================================
